@@ -633,6 +633,12 @@ macro_rules! lemma_f {
                 q1 = if calls >= 2 && lg[1].0 == $nb / 4 - 1 { lg[1].1 } else { oracle_rank(&b, $nb / 4 - 1) };
                 q3 = if calls >= 3 && lg[2].0 == 3 * $nb / 4 - 1 { lg[2].1 } else { oracle_rank(&b, 3 * $nb / 4 - 1) };
             } else {
+                if !$free && r != Err(GeneratorError::TooLargeInput)
+                    && r != Err(GeneratorError::TooSmallInput)
+                {
+                    // native replay: consume the three witnesses the (inactive) honest stub drew
+                    let _: [u32; 3] = [kani::any(), kani::any(), kani::any()];
+                }
                 let mut sorted = b;
                 sorted.sort_unstable();
                 q1 = sorted[$nb / 4 - 1];
@@ -1038,7 +1044,7 @@ unsafe fn no_realloc(_p: *mut u8, _l: core::alloc::Layout, _n: usize) -> *mut u8
 }
 
 macro_rules! c18_gen {
-    ($name:ident, $pubty:ty, $n:literal, $unw:literal) => {
+    ($name:ident, $pubty:ty, $n:literal, $nb:literal, $unw:literal) => {
         #[kani::proof]
         #[kani::unwind($unw)]
         #[kani::stub(std::alloc::alloc, no_alloc)]
@@ -1063,7 +1069,7 @@ macro_rules! c18_gen {
             assert!(g.processed_len() == Some($n + 3));
             let c = g.clone();
             unsafe {
-                GHOST_N = 256;
+                GHOST_N = $nb;
                 SEL_CALLS = 0;
                 FREE_MODE = true;
                 let fq: [u32; 3] = kani::any();
@@ -1080,6 +1086,6 @@ macro_rules! c18_gen {
     };
 }
 //@ h=c18_gen_short props=C18,C17 cfgs=K1 tier=q t=1800 | funcs: Generator<Short>::{new, update, processed_len, clone, finalize_with_options, finalize} (public wrapper types) | bound: pieces of 6 and 3 bytes (any content), all option settings: allocator never reached, no panic | stubs: allocator entry points -> assert!(false); select_nth_unstable (core, cannot allocate) -> any ordered quartiles; mapping/increment logging stubs; FuzzyHashLengthEncoding::new contract
-c18_gen!(c18_gen_short, crate::hashes::Short, 6, 52);
+c18_gen!(c18_gen_short, crate::hashes::Short, 6, 48, 52);
 //@ h=c18_gen_longl props=C18,C17 cfgs=K1 tier=t t=3000 | funcs: Generator<LongWithLongChecksum>::{new, update, processed_len, clone, finalize_with_options, finalize} | bound: pieces of 5 and 3 bytes, all option settings | stubs: as c18_gen_short
-c18_gen!(c18_gen_longl, crate::hashes::LongWithLongChecksum, 5, 260);
+c18_gen!(c18_gen_longl, crate::hashes::LongWithLongChecksum, 5, 256, 260);
